@@ -320,7 +320,10 @@ def alive(pid, role):
     return comm == role[:15]
 
 
-def run(drv, rundir, args, files=None, env_extra=None, missing=(), timeout=20, stdin_data=b'STDIN-DATA'):
+INVOKE = ('abs', 'rel', 'dotdot', 'symlink', 'symlink-abs')
+
+
+def run(drv, rundir, args, files=None, env_extra=None, missing=(), timeout=20, stdin_data=b'STDIN-DATA', invoke='abs'):
     """Run the driver in a fresh directory.  files: {relative name: bytes}; missing: roles whose tool does not exist.
     -> Obs(status, signal, timeout, stdout, stderr, logs{role: [rec]}, driverlog, files_after, tmp_left, alive)"""
     shutil.rmtree(rundir, ignore_errors=True)
@@ -348,7 +351,12 @@ def run(drv, rundir, args, files=None, env_extra=None, missing=(), timeout=20, s
     o = Obs()
     t0 = time.time()
     with open(os.path.join(rundir, '.stdin'), 'rb') as fin, open(os.path.join(rundir, '.stdout'), 'wb') as fout, open(os.path.join(rundir, '.stderr'), 'wb') as ferr:
-        p = subprocess.Popen([os.path.join(rundir, 'cproc')] + list(args), stdin=fin, stdout=fout, stderr=ferr, cwd=rundir, env=env, start_new_session=True)
+        # the compiler proper is found next to the driver's real executable, however the driver was named on the command line
+        if invoke.startswith('symlink'):
+            os.makedirs(os.path.join(rundir, 'alt'), exist_ok=True)
+            os.symlink('../cproc', os.path.join(rundir, 'alt', 'cc'))
+        argv0 = {'abs': os.path.join(rundir, 'cproc'), 'rel': './cproc', 'dotdot': 'sub/../cproc', 'symlink': 'alt/cc', 'symlink-abs': os.path.join(rundir, 'alt', 'cc')}[invoke]
+        p = subprocess.Popen([argv0] + list(args), stdin=fin, stdout=fout, stderr=ferr, cwd=rundir, env=env, start_new_session=True)
         try:
             rc = p.wait(timeout=timeout)
             o.timeout = False
@@ -404,7 +412,7 @@ def run(drv, rundir, args, files=None, env_extra=None, missing=(), timeout=20, s
     for dirpath, dn, fn in os.walk(rundir):
         for f in fn:
             rel = os.path.relpath(os.path.join(dirpath, f), rundir)
-            if rel.startswith(('.vflog', 'vfbin')) or rel in ('cproc', 'cproc-qbe', '.stdin', '.stdout', '.stderr'):
+            if rel.startswith(('.vflog', 'vfbin')) or rel in ('cproc', 'cproc-qbe', '.stdin', '.stdout', '.stderr', 'alt/cc'):
                 continue
             if files and rel in files:
                 continue
